@@ -106,11 +106,13 @@ class StateMachine:
     cleanup_reason = None  # None or an instance of Exception, Start or Stop
     _last_time = 0  # for delta method
 
-    def __init__(self, statefunc=None, logger=None, **kwds):
+    def __init__(self, statefunc=None, logger=None, lock=None, **kwds):
         """initialize state machine
 
         :param statefunc: if given, this is the first statefunc
         :param logger: an optional logger
+        :param lock: an optional reentrant lock. to be given when code outside of the state
+            machine has to be atomic with respect to transitions (see :meth:`_new_state`)
         :param kwds: any attributes for the state object
         """
         self.cleanup = None
@@ -118,7 +120,7 @@ class StateMachine:
         self.maxloops = 10  # the maximum number of statefunc functions called in sequence without Retry
         self.now = time.time()  # avoids calling time.time several times per statefunc
         self.log = logger or getLogger('dummy')
-        self._lock = threading.Lock()
+        self._lock = lock or threading.RLock()
         self._update_attributes(kwds)
         if statefunc:
             self.start(statefunc)
@@ -160,11 +162,14 @@ class StateMachine:
         return bool(self.statefunc)
 
     def _new_state(self, statefunc):
-        if self.transition:
-            self.transition(self, statefunc)  # pylint: disable=not-callable  # None or function
-        self.init = True
-        self.statefunc = statefunc
-        self._last_time = self.now
+        # the transition callback and the change of the state are one step for
+        # whoever holds the lock while looking at or modifying the machine
+        with self._lock:
+            if self.transition:
+                self.transition(self, statefunc)  # pylint: disable=not-callable  # None or function
+            self.init = True
+            self.statefunc = statefunc
+            self._last_time = self.now
 
     def cycle(self):
         """do one cycle
